@@ -210,6 +210,22 @@ def run(chk: Check):
         chk.count("likelihood:long_offset_dominated")
         if not close(gotb, wantb, 1e-6, 1e-9):
             chk.fail(f"likelihood on long series (R*T*S*D = {R * S * S * D}) at level {level:g}: implementation {gotb!r}, documented definition {wantb!r}", caseb)
+    # a very long simulation against a short real series, bandwidth by rule of thumb: the rule uses the length of the WHOLE simulated series,
+    # however the implementation organises its work
+    for big in range(2 if chk.tier == "quick" else 6):
+        prng = np.random.default_rng(rng.randrange(10 ** 9))
+        R, S, T, D = rng.choice([1, 2]), rng.choice([140001, 200000, 270000]), rng.randint(2, 4), 1       # noqa: N806
+        simb = prng.standard_normal((R, S, D)) * 1.5 + 0.3; realb = prng.standard_normal((T, D))
+        hb = ["silverman", "scott"][big % 2]
+        with warnings.catch_warnings(), np.errstate(all="ignore"):
+            warnings.simplefilter("ignore")
+            gotb = float(LikelihoodLoss(h=hb).compute_loss(simb, realb))
+        wantb = ref.likelihood_big(simb, realb, hb)
+        caseb = {"case": {"loss": "likelihood", "E": R, "N": S, "T_real": T, "D": D, "shape": "very_long_simulation", "options": {"h": hb}}}
+        chk.case(["likelihood-long", R, S, T, D, hb], True, {"loss": "likelihood", "R": R, "S": S, "T": T, "h": hb, "value": gotb, "reference": wantb})
+        chk.count("likelihood:very_long_simulation")
+        if not close(gotb, wantb, 1e-9, 1e-9):
+            chk.fail(f"likelihood with h='{hb}' on a simulated series of {S} points: implementation {gotb!r}, documented definition {wantb!r}", caseb)
     # Fourier, GSL-div, likelihood: implementation vs the executable Lean model, coordinate by coordinate (tolerance: sums are ordered differently)
     flat = [r for *_, rs in model_lean for r in rs]
     answers = iter(lean_run(flat)) if flat else iter([])
